@@ -8,6 +8,7 @@ nothing; runs stopping before path_commit store blobs but leave every path as it
 those of the full run; a later full evaluation returns what plain execution gives.
 """
 import json
+import os
 
 from . import common, hist, pipeline, progs
 
@@ -68,6 +69,48 @@ def run(ctx):
             if bad:
                 res.violations.append({"what": "run restricted to %s, then the full run of a pipeline whose evaluated function is a data function: %s" % (ORDER[:k], bad),
                                        "input": {"stages": ORDER[:k], "store": store_kind, "source": progs.render_world(s.world, "extmod")}, "kf": None})
+    # directed: a path kept and then loaded by another kept function of the same evaluation; a full run, an edit of what the
+    # producer reads, then a run restricted to the stages before the path commit: it returns the values of the edited code (the
+    # loads inside it read what this evaluation keeps, not what is committed), and the full run after it too
+    real = pipeline.real_runner()
+    ref = pipeline.ref_worker()
+    import shutil
+    import sys
+    import tempfile
+    for di in range(3):
+        base = tempfile.mkdtemp(prefix="ddsverif_c15d_")
+        pkg = "c15d_%d_%d" % (os.getpid(), di)
+        try:
+            real.reset_process_state()
+            real.set_store(["local", "memory", "local_lru"][di], os.path.join(base, "si"), os.path.join(base, "sd"))
+            ref.call(cmd="refpaths", paths={})
+            for step, (v, stages) in enumerate([(1, None), (2, ORDER[:4]), (2, None), (3, ORDER[:3]), (3, None)]):
+                src = ("import dds\nfrom ddsverif_rt import log, term\n\nV = %d\n\n"
+                       "def a():\n    log('a')\n    return term('a', V)\n\n"
+                       "def b():\n    log('b')\n    return term('b', dds.load('/s/a'))\n\n"
+                       "def f0():\n    x = dds.keep('/s/a', a)\n    y = dds.keep('/s/b', b)\n    z = dds.load('/s/a')\n    return term('f0', x, y, z)\n" % v)
+                os.makedirs(os.path.join(base, pkg), exist_ok=True)
+                open(os.path.join(base, pkg, "__init__.py"), "w").close()
+                with open(os.path.join(base, pkg, "main.py"), "w") as fh:
+                    fh.write(src)
+                real.load_world(base, pkg + ".main", None, accept=pkg)
+                ref.call(cmd="world", dir=base, module=pkg + ".main", extmod=None)
+                entry = {"kind": "eval", "fun": "f0"}
+                rr = ref.call(cmd="run", entry=entry)
+                r = real.run(entry, {"stages": stages} if stages else None)
+                res.evaluations += 1
+                res.count("directed_load_after_keep_steps")
+                res.nontrivial("directed load %d %d" % (di, step))
+                if rr.get("error") is None and (r["error"] is not None or r["value"] != rr["value"]):
+                    res.violations.append({"what": "evaluation %s of a pipeline that loads a path it has just kept returns %r (error %s), plain execution of the "
+                                                   "current code %r" % ("restricted to %s" % stages if stages else "(full)", r["value"], r["error"], rr["value"]),
+                                           "input": {"source": src, "step": step, "stages": stages}, "kf": None})
+                    break
+        finally:
+            shutil.rmtree(base, ignore_errors=True)
+            for k in list(sys.modules):
+                if k.split(".")[0] == pkg:
+                    del sys.modules[k]
     for wi in range(nworlds):
         # (every second pipeline reads back, with dds.load, paths it has just kept)
         w = progs.gen_world(rng, nfun=rng.randint(2, 6), allow=("call", "ref", "keep", "datafn", "shadow") + (("load",) if wi % 2 else ()))
